@@ -52,7 +52,8 @@ def root_rules(facts, rep, rule):
                                 kk = k
                                 while kk[0] == "call" and kk[2]:
                                     kk = norm(kk[2][0])
-                                if kk == ("str", "") and v[0] == "agg" and dict(v[3]).get("file_type", ("",))[0] == "agg" and \
+                                empty = kk == ("str", "") or (kk[0] == "call" and kk[1] in ("String::new", "Default::default", "String::default") and not kk[2])
+                                if empty and v[0] == "agg" and dict(v[3]).get("file_type", ("",))[0] == "agg" and \
                                         dict(v[3])["file_type"][2] == "Directory":
                                     ok = True
                         n += 1
